@@ -677,11 +677,12 @@ theorem split_nobar_of_c08 {n : Str} (hb : '|' ∉ n) (h : SplitRejoins sp n) :
   exact hb (mem_pyHostname (by decide) (by decide) (mem_of_mem_lower (by decide) hm))
 
 /-- **serialisation is invertible on the LRU of every URL string without `|`** that the parser
-accepts — no grammar restriction —, and the serialised LRU ends with `|`; suffix-aware mode:
-given C08's clause -/
-theorem serialization_string (sa : Bool) (u : Str) (hbar : '|' ∉ u)
-    (hs : sa = true → SplitRejoinsUrl sp u) (stems : List Str)
-    (hst : lruStemsUrl sp sa u = some stems) :
+accepts — no grammar restriction —, and the serialised LRU ends with `|`.  All that is needed of
+`split_suffix` (suffix-aware mode only) is that the two parts it returns hold no `|` -/
+theorem serialization_string_of_split (sa : Bool) (u : Str) (hbar : '|' ∉ u)
+    (hsplit : sa = true → ∀ p, urlParts u = some p →
+      ∀ d s, splitSuffixParsed sp p.netloc = some (d, s) → '|' ∉ d ∧ '|' ∉ s)
+    (stems : List Str) (hst : lruStemsUrl sp sa u = some stems) :
     StemsOK stems ∧ urlToLru sp sa u = some (serializeLru stems) ∧
     unserializeLru (serializeLru stems) = stems ∧
     serializeLru (unserializeLru (serializeLru stems)) = serializeLru stems ∧
@@ -694,16 +695,31 @@ theorem serialization_string (sa : Bool) (u : Str) (hbar : '|' ∉ u)
     simp only [Option.map_some, Option.some.injEq] at hst
     subst hst
     have nb := noBar_of_url hp hbar
-    have hbn : '|' ∉ p.netloc := by
-      intro hm
-      simp only [noBar, Bool.and_eq_true] at nb
-      have := noneOf_iff.mp nb.1.1.1.2 _ hm
-      simp at this
-    have ok := stems_wellformed_of_split sp sa p nb
-      (fun hsa _ => split_nobar_of_c08 sp hbn (hs hsa p hp))
+    have ok := stems_wellformed_of_split sp sa p nb (fun hsa _ => hsplit hsa p hp)
     refine ⟨ok, by simp [urlToLru, lruStemsUrl, hp], unserialize_serialize_ok ok, ?_,
       serialize_ends_bar _⟩
     rw [unserialize_serialize_ok ok]
+
+/-- the same for an ARBITRARY `split_suffix`, **given C08's clause at `u`** (suffix-aware mode
+only: `hs`).  The clause is more than is needed (`serialization_string_of_split`) and is false for
+the real `split_suffix` on a host with a trailing dot; `C12.serialization_string_psl`
+(`Props/C12Psl.lean`) is the statement without any hypothesis, for the model of suffix_trie.py -/
+theorem serialization_string (sa : Bool) (u : Str) (hbar : '|' ∉ u)
+    (hs : sa = true → SplitRejoinsUrl sp u) (stems : List Str)
+    (hst : lruStemsUrl sp sa u = some stems) :
+    StemsOK stems ∧ urlToLru sp sa u = some (serializeLru stems) ∧
+    unserializeLru (serializeLru stems) = stems ∧
+    serializeLru (unserializeLru (serializeLru stems)) = serializeLru stems ∧
+    (serializeLru stems).getLast? = some '|' := by
+  apply serialization_string_of_split sp sa u hbar _ stems hst
+  intro hsa p hp
+  have nb := noBar_of_url hp hbar
+  have hbn : '|' ∉ p.netloc := by
+    intro hm
+    simp only [noBar, Bool.and_eq_true] at nb
+    have := noneOf_iff.mp nb.1.1.1.2 _ hm
+    simp at this
+  exact split_nobar_of_c08 sp hbn (hs hsa p hp)
 
 /-! ### the class -/
 
@@ -762,10 +778,13 @@ the grammar `wfNetloc`; a host; no raw bracket in the userinfo — every bracket
 * `ensure_protocol` leaves `back` alone, so `lru_stems(back)` / **`url_to_lru(back)` is the same
   LRU again**.
 
-Suffix-aware mode: given C08's clause at `u` and, when the host is a plain host with `%`, C08's
-case clause at `u` (`SplitCaseInvUrl`; for the fixed-point part only). -/
-theorem roundtrip_string_partial (sa : Bool) (u : Str) (hc : inClass u = true)
-    (hs : sa = true → SplitRejoinsUrl sp u) (hci : sa = true → SplitCaseInvUrl sp u) :
+Suffix-aware mode: given that the two parts of the public-suffix split re-join to the lower-cased
+host of `u` (`SplitLaw`: follows from C08's clause, `roundtrip_string_partial`; holds for the
+model of suffix_trie.py under an explicit host condition, `C12.roundtrip_string_psl`) and, when
+the host is a plain host with `%`, C08's case clause at `u` (`SplitCaseInvUrl`; for the
+fixed-point part only). -/
+theorem roundtrip_string_of_law (sa : Bool) (u : Str) (hc : inClass u = true)
+    (hlaw0 : sa = true → ∀ p, urlParts u = some p → SplitLaw sp p.netloc) (hci : sa = true → SplitCaseInvUrl sp u) :
     ∃ p back,
       urlParts u = some p ∧ lruStemsUrl sp sa u = some (lruStems sp sa p) ∧
       urlToLru sp sa u = some (serializeLru (lruStems sp sa p)) ∧
@@ -782,8 +801,7 @@ theorem roundtrip_string_partial (sa : Bool) (u : Str) (hc : inClass u = true)
     simp only [wfParts, Bool.and_eq_true]
     refine ⟨c.wf, ?_⟩
     rcases f.path_abs with h | ⟨q, h⟩ <;> simp [h]
-  have hlaw : sa = true → SplitLaw sp p.netloc :=
-    fun h => splitLaw_of_class sp _ c.wf (hs h p hp)
+  have hlaw : sa = true → SplitLaw sp p.netloc := fun h => hlaw0 h p hp
   obtain ⟨h1, h2⟩ := lru_to_url_serialized sp sa p hwfp c.nobar hlaw
   obtain ⟨_, _, _, hshape, _⟩ := wfNetloc_shape c.wf
   have hok := netlocOk_canon c.wf c.auth f.ok (expectedHost_cases sp sa p.netloc hshape)
@@ -812,6 +830,30 @@ theorem roundtrip_string_partial (sa : Bool) (u : Str) (hc : inClass u = true)
     rw [hre]; rfl
   · unfold urlToLru
     rw [hstems]
+
+/-- `roundtrip_string_of_law` for an arbitrary `split_suffix` **given C08's clause at `u`**
+(`SplitRejoinsUrl`; suffix-aware mode only).  For the real `split_suffix` the clause is false on
+a host with a trailing dot (`a.co.uk.`) or made of a dot and a public suffix (`.co.uk`):
+`C12.roundtrip_string_psl` (`Props/C12Psl.lean`) states the round trip with suffix_trie.py inside
+and the exact host condition instead -/
+theorem roundtrip_string_partial (sa : Bool) (u : Str) (hc : inClass u = true)
+    (hs : sa = true → SplitRejoinsUrl sp u) (hci : sa = true → SplitCaseInvUrl sp u) :
+    ∃ p back,
+      urlParts u = some p ∧ lruStemsUrl sp sa u = some (lruStems sp sa p) ∧
+      urlToLru sp sa u = some (serializeLru (lruStems sp sa p)) ∧
+      lruToUrl (lruStems sp sa p) = .ok back ∧
+      lruToUrlStr (serializeLru (lruStems sp sa p)) = .ok back ∧
+      reparse back = some (expectedParts sp sa p) ∧
+      urlParts back = some (expectedParts sp sa p) ∧
+      lruStemsUrl sp sa back = lruStemsUrl sp sa u ∧
+      urlToLru sp sa back = urlToLru sp sa u := by
+  obtain ⟨p, hp, hcp⟩ := inClass_iff.1 hc
+  have c := classFacts hcp
+  apply roundtrip_string_of_law sp sa u hc _ hci
+  intro h q hq
+  rw [hp] at hq
+  cases hq
+  exact splitLaw_of_class sp _ c.wf (hs h p hp)
 
 /-- **the round trip in terms of CPython's own accessors** (component level): the re-assembled
 netloc has the same `.hostname` (CPython lower-cases it), the same `.port` (and the same port
@@ -864,6 +906,30 @@ and fragment of `A = urlsplit(ensure_protocol(u))`, `B.hostname == A.hostname`,
 written is kept (lower-cased when suffix-aware and the host has a public suffix).  Suffix-aware
 mode: a plain host has no `%` (`hpct`; outside it `B.hostname == A.hostname` really fails, see
 the example below — CPython does not lower-case what follows a `%`) -/
+theorem accessors_string_of_law (sa : Bool) (u : Str) (hc : inClass u = true)
+    (hlaw0 : sa = true → ∀ p, urlParts u = some p → SplitLaw sp p.netloc)
+    (hpct : sa = true → ∀ p, urlParts u = some p → wfHostSA p.netloc = true) :
+    ∃ A B back,
+      urlParts u = some A ∧ lruToUrlStr (serializeLru (lruStems sp sa A)) = .ok back ∧
+      reparse back = some B ∧
+      B.scheme = A.scheme ∧ B.path = A.path ∧ B.query = A.query ∧ B.fragment = A.fragment ∧
+      Py.hostname B.netloc = Py.hostname A.netloc ∧ Py.port B.netloc = Py.port A.netloc ∧
+      (Py.username B.netloc).getD [] = (Py.username A.netloc).getD [] ∧
+      (Py.password B.netloc).getD [] = (Py.password A.netloc).getD [] ∧
+      specHost B.netloc = expectedHost sp sa A.netloc ∧ specPort B.netloc = specPort A.netloc := by
+  obtain ⟨p, back, hp, _, _, _, h5, h6, _⟩ := roundtrip_string_of_law sp sa u hc hlaw0
+    (fun hsat q hq hf => by rw [hpct hsat q hq] at hf; cases hf)
+  obtain ⟨q, hq, hcp⟩ := inClass_iff.1 hc
+  rw [hp] at hq
+  cases hq
+  have c := classFacts hcp
+  obtain ⟨e1, e2, _, e4, e5⟩ := accessors_roundtrip sp sa p c.wf (fun h => hpct h p hp)
+  obtain ⟨hh', hat'⟩ := expectedHost_shape sp sa p.netloc c.wf
+  obtain ⟨_, _, c3, c4, _⟩ := canonNetloc_components c.wf hh' hat'
+  exact ⟨p, expectedParts sp sa p, back, hp, h5, h6, rfl, rfl, rfl, rfl, e1, e2, e4, e5, c3, c4⟩
+
+/-- `accessors_string_of_law` for an arbitrary `split_suffix` given C08's clause at `u`
+(`C12.accessors_string_psl` is the statement with suffix_trie.py inside) -/
 theorem accessors_string_partial (sa : Bool) (u : Str) (hc : inClass u = true)
     (hs : sa = true → SplitRejoinsUrl sp u)
     (hpct : sa = true → ∀ p, urlParts u = some p → wfHostSA p.netloc = true) :
@@ -875,16 +941,13 @@ theorem accessors_string_partial (sa : Bool) (u : Str) (hc : inClass u = true)
       (Py.username B.netloc).getD [] = (Py.username A.netloc).getD [] ∧
       (Py.password B.netloc).getD [] = (Py.password A.netloc).getD [] ∧
       specHost B.netloc = expectedHost sp sa A.netloc ∧ specPort B.netloc = specPort A.netloc := by
-  obtain ⟨p, back, hp, _, _, _, h5, h6, _⟩ := roundtrip_string_partial sp sa u hc hs
-    (fun hsat q hq hf => by rw [hpct hsat q hq] at hf; cases hf)
-  obtain ⟨q, hq, hcp⟩ := inClass_iff.1 hc
+  obtain ⟨p, hp, hcp⟩ := inClass_iff.1 hc
+  have c := classFacts hcp
+  apply accessors_string_of_law sp sa u hc _ hpct
+  intro h q hq
   rw [hp] at hq
   cases hq
-  have c := classFacts hcp
-  obtain ⟨e1, e2, _, e4, e5⟩ := accessors_roundtrip sp sa p c.wf (fun h => hpct h p hp)
-  obtain ⟨hh', hat'⟩ := expectedHost_shape sp sa p.netloc c.wf
-  obtain ⟨_, _, c3, c4, _⟩ := canonNetloc_components c.wf hh' hat'
-  exact ⟨p, expectedParts sp sa p, back, hp, h5, h6, rfl, rfl, rfl, rfl, e1, e2, e4, e5, c3, c4⟩
+  exact splitLaw_of_class sp _ c.wf (hs h p hp)
 
 /-! ### non-vacuity, and what happens outside the class -/
 
